@@ -36,7 +36,7 @@ Inductive op : Type :=
 | OBefore (x : Z) (inc : bool)           (* rule.before(x, inc) *)
 | OAfter (x : Z) (inc : bool).           (* rule.after(x, inc) *)
 
-Inductive exn : Type := EIndexError | ETypeError.
+Inductive exn : Type := EIndexError | ETypeError | EValueError.
 Inductive outcome : Type := Ret (l : list Z) | Raise (e : exn).
 
 Definition last_opt (l : list Z) : option Z :=
@@ -137,6 +137,8 @@ Inductive pc : Type :=
 | PSetC                  (* 17  self._cache_complete = True *)
 | PBreakE                (* 18  break *)
 | PRelease (brk : bool)  (* 20  release()   (finally); brk = reached through a break *)
+| PExcX                  (* 15  except StopIteration:   evaluated for another exception class: no match *)
+| PRelX                  (* 20  release()   (finally) while an exception of the generator propagates *)
 | PYield                 (* 21  yield cache[i] *)
 | PIncr                  (* 22  i += 1 *)
 | PTWhile                (* 23  while i < self._len: *)
@@ -216,6 +218,11 @@ Definition do_yield (s : shared) (th : thread) (nxt : pc) : thread :=
 Section Step.
 Variable seq : list Z.
 Variable fixed : bool.
+(* raises = true: the underlying generator, after yielding seq, RAISES (ValueError of an impossible
+   interval/byhour combination, rrule.py 1017) instead of finishing; `_len` is then never assigned and
+   the generator object is dead (a later next() on it raises StopIteration).  The theorems of C11 are
+   about raises = false; raises = true is the recorded finding F-C11-raise. *)
+Variable raises : bool.
 
 (* one line of thread `t`; None = blocked in acquire() (or the thread is done) *)
 Definition step_thread (s : shared) (t : nat) (th : thread) : option (shared * thread) :=
@@ -248,8 +255,11 @@ Definition step_thread (s : shared) (t : nat) (th : thread) : option (shared * t
       else match nth_error seq (gpos s) with
            | Some v => Some (Sh (cache s ++ [v]) (complete s) (sgen s) (S (gpos s)) (gdone s) (lock s) (lenp s),
                              set_pc th (PFor (S j)))
-           | None => Some (Sh (cache s) (complete s) (sgen s) (gpos s) true (lock s) (Some (gpos s)),
-                           set_pc th (PGenPub j))
+           | None =>
+               if raises
+               then Some (Sh (cache s) (complete s) (sgen s) (gpos s) true (lock s) (lenp s), set_pc th PExcX)
+               else Some (Sh (cache s) (complete s) (sgen s) (gpos s) true (lock s) (Some (gpos s)),
+                          set_pc th (PGenPub j))
            end
   | PGenPub _ => Some (s, set_pc th PExcept)
   | PExcept => Some (s, set_pc th PSetGen)
@@ -260,6 +270,10 @@ Definition step_thread (s : shared) (t : nat) (th : thread) : option (shared * t
   | PRelease brk =>
       Some (Sh (cache s) (complete s) (sgen s) (gpos s) (gdone s) None (lenp s),
             set_pc th (if brk then PTWhile else PYield))
+  | PExcX => Some (s, set_pc th PRelX)
+  | PRelX =>
+      Some (Sh (cache s) (complete s) (sgen s) (gpos s) (gdone s) (if fixed then None else lock s) (lenp s),
+            Th (t_op th) PDone (t_i th) (t_gen th) (t_out th) (Some (Raise EValueError)))
   | PYield => Some (s, do_yield s th PIncr)
   | PIncr => Some (s, Th (t_op th) PWhile (S (t_i th)) (t_gen th) (t_out th) (t_res th))
   | PTWhile =>
